@@ -6,8 +6,9 @@ date/date-time value: whether it has a `.time` attribute (DATE-TIME) or not (DAT
 """
 
 
-class DT:
-    """A DATE-TIME value: has `.time` (like datetime.datetime)."""
+class T:
+    """An instant on the UTC timeline, datetime-like: what `tzify` returns and what time-range bounds are.
+    Has `.time` (like datetime.datetime), is totally ordered, and `T + seconds` is a T."""
 
     __slots__ = ("s",)
 
@@ -16,6 +17,39 @@ class DT:
 
     def time(self):  # pragma: no cover - only its presence matters
         return None
+
+    def _v(self, o):
+        return o.s if isinstance(o, T) else o
+
+    def __lt__(self, o):
+        return self.s < self._v(o)
+
+    def __le__(self, o):
+        return self.s <= self._v(o)
+
+    def __gt__(self, o):
+        return self.s > self._v(o)
+
+    def __ge__(self, o):
+        return self.s >= self._v(o)
+
+    def __eq__(self, o):
+        return isinstance(o, T) and self.s == o.s
+
+    def __hash__(self):
+        return hash(self.s)
+
+    def __add__(self, secs):
+        return T(self.s + secs)
+
+    def __repr__(self):
+        return f"T({self.s!r})"
+
+
+class DT(T):
+    """A DATE-TIME property value (has `.time`)."""
+
+    __slots__ = ()
 
     def __repr__(self):
         return f"DT({self.s!r})"
@@ -55,7 +89,8 @@ class Period:
 
 
 def tzify(dt):
-    return dt.s
+    """Stand-in for as_tz_aware_ts: always returns a datetime-like instant (DATE -> midnight)."""
+    return T(dt.s)
 
 
 def days(n=0, *a, **k):
